@@ -90,7 +90,7 @@ def measure_log(ctx, ty, dtype, per_cell):
         sgv = float(math.log(xi[-1])) if ty in ("RxSO3", "Sim3") else 0.0
         e = {"chk": "log", "ty": ty, "dt": dt, "eT": dexp(a), "eS": dexp(s), "eP": dexp(p), "hemi": h, "finite": fin,
              "awayPi": bool(a <= PI - 1e-6), "identity_in": bool(torch.equal(X.tensor()[i], ident)),
-             "gT": bool(a > eps_f), "gS": bool(abs(s) > eps_f), "cell": [a, h, s, p], "x": xi}
+             "gT": bool(a > eps_f), "gS": bool(abs(s) > eps_f), "sT": bool(a < eps_f ** 0.25), "sS": bool(abs(s) < eps_f ** 0.25), "cell": [a, h, s, p], "x": xi}
         if not fin:
             e.update({"norm_excess": 0, "rt_rot": R.CAP, "rt_trans": R.CAP, "zero_out": False, "neg_same": R.CAP,
                       "inv_neg_rot": R.CAP, "inv_neg_trans": R.CAP})
@@ -158,7 +158,7 @@ def measure_logexp(ctx, ty, dtype, per_cell):
         fin = bool(torch.isfinite(y.tensor()[i]).all())
         t, s, p = meta[i]
         e = {"chk": "logexp", "ty": ty, "dt": dt, "eT": dexp(t), "eS": dexp(s), "eP": dexp(p), "finite": fin,
-             "gT": bool(t > eps_f), "gS": bool(abs(s) > eps_f), "cell": [t, 1, s, p], "x": x.tensor()[i].tolist()}
+             "gT": bool(t > eps_f), "gS": bool(abs(s) > eps_f), "sT": bool(t < eps_f ** 0.25), "sS": bool(abs(s) < eps_f ** 0.25), "cell": [t, 1, s, p], "x": x.tensor()[i].tolist()}
         if fin:
             e["err_rot"] = R.vec_err([yi[k] for k in range(*ro)], [xi[k] for k in range(*ro)], eps, floor=floor)
             if so is not None:   # log-scale: absolute to eps (relative to max(1, |sigma|))
@@ -250,13 +250,13 @@ def run(ctx):
                 ctx.cover("%s:%s:%s:%s:%s:%s:%s" % (e["chk"], ty, e["dt"], e["cell"][0], e["cell"][1], e["eS"], e["eP"]))
                 w = worst.setdefault("%s/%s/%s" % (e["chk"], ty, e["dt"]), {})
                 for k in e:
-                    if k.startswith(("rt_", "err_", "neg_", "inv_", "norm_")) and not (ty == "Sim3" and e["gS"] and e["eS"] < 0):
+                    if k.startswith(("rt_", "err_", "neg_", "inv_", "norm_")):
                         w[k] = max(w.get(k, 0), e[k])
                 traces.append({"cfg": {"spec": "LieRegimesTrace"}, "ev": [e]})
             ctx.evaluations += xp["n"]
             if not xp["same"]:
                 ctx.violation("exact/%s/log_of_negated_quaternion" % ty, "Log(-q) != Log(q) bitwise on the Hurwitz units with |w| in {1/2, 1}")
-    ctx.extra["worst_err_eps_units_outside_sim3_band"] = worst
+    ctx.extra["worst_err_eps_units"] = worst
     ctx.sample(traces[5]["ev"][0])
     ctx.sample(traces[-1]["ev"][0])
     judge(ctx, traces, ctx.validate("LieRegimesTrace", "LieRegimesTrace.cfg", traces, "log", chunk=2500, parallel=8))
